@@ -227,3 +227,52 @@ func H_C17_unequal_lengths() {
 	vsym.Assert(docs == 1, "exactly-one-response-document")
 	vsym.Assert(len(resp.Log) >= 1, "problem-described-in-log")
 }
+
+// H_C17_nonfinite_results: IEEE-754 model: a request with finite inputs whose accumulated state
+// overflows (or not): in both output modes (nested lists / maps by name) every non-finite result
+// is encoded as the string NaN, +Inf or -Inf, finite ones as numbers, and exactly one document
+// is produced.
+//vsym:prop=C17 tier=quick ints=int floats=fp timeout=120
+func H_C17_nonfinite_results_split() { c17nonfinite(true) }
+
+// H_C17_nonfinite_results_nested: same in the nested-list output mode.
+//vsym:prop=C17 tier=quick ints=int floats=fp timeout=120
+func H_C17_nonfinite_results_nested() { c17nonfinite(false) }
+
+func c17nonfinite(split bool) {
+	c17register()
+	a0, a1 := vsym.Float64("a0"), vsym.Float64("a1")
+	vsym.Assume(a0 == a0 && a1 == a1 && a0-a0 == 0 && a1-a1 == 0) // finite request values
+	req := singleModel{Name: "ZZLinear"}
+	req.Parameters = append(req.Parameters, modelValue{"gain", 1}, modelValue{"offset", 0})
+	req.Inputs = append(req.Inputs, modelInput{"a", []float64{a0, a1}}, modelInput{"b", []float64{0, 0}})
+	resp, docs := c17call(&req, false, split)
+	vsym.Reach("responded")
+	vsym.Assert(docs == 1, "exactly-one-response-document")
+	acc := 0.0 // accumulated exactly as the model does
+	acc += a0
+	acc += a1
+	var got interface{}
+	if split {
+		m, ok := resp.RunResults.States.(map[string]interface{})
+		vsym.Assert(ok, "split-states-are-a-map")
+		if ok {
+			got = m["acc"]
+		}
+	} else {
+		l, ok := resp.RunResults.States.([]interface{})
+		vsym.Assert(ok && len(l) == 1, "states-nested-like-dimensions")
+		if ok && len(l) == 1 {
+			got = l[0]
+		}
+	}
+	s, isStr := got.(string)
+	f, isNum := got.(float64)
+	if acc-acc == 0 {
+		vsym.Assert(isNum && f == acc, "finite-state-encoded-as-number")
+	} else if acc > 0 {
+		vsym.Assert(isStr && s == "+Inf", "overflowed-state-encoded-as-string")
+	} else {
+		vsym.Assert(isStr && s == "-Inf", "overflowed-state-encoded-as-string")
+	}
+}
